@@ -3,6 +3,7 @@
 package evaluator
 
 import (
+	"errors"
 	"strconv"
 	"strings"
 	"time"
@@ -122,4 +123,36 @@ func zzSymRunes(n int) []rune {
 		rs[k] = zzRune("r")
 	}
 	return rs
+}
+
+// zzSpecIndex: i is an integer with -n <= i < n; returns the position.
+func zzSpecIndex(f float64, n int) (int, bool) {
+	for k := -n; k < n; k++ {
+		if f == float64(k) {
+			if k < 0 {
+				return n + k, true
+			}
+			return k, true
+		}
+	}
+	return 0, false
+}
+
+// zzSpecBound: slice bound after adding n to negative values must be in [0,n].
+func zzSpecBound(f float64, n int) (int, bool) {
+	for k := -n; k <= n; k++ {
+		if f == float64(k) {
+			if k < 0 {
+				return n + k, true
+			}
+			return k, true
+		}
+	}
+	return 0, false
+}
+
+
+func zzAcceptableErr(err error) bool {
+	var ee ExitError
+	return errors.Is(err, ErrPanic) || errors.As(err, &ee) || errors.Is(err, ErrTest)
 }
